@@ -47,14 +47,22 @@ LIST_OF = {"int": "ints", "ints": "ints2"}
 
 
 class Tr:
-    def __init__(self, env, funcs):
+    def __init__(self, env, funcs, subst=None, pure_comps=False):
         self.env = dict(env)          # python name -> type
         self.funcs = funcs            # python nested function name -> (lean name, [param types], result type, extra lean args)
+        self.subst = subst or {}      # ast.dump of an expression -> parameter name (a quantity the fragment takes as given)
+        self.pure_comps = pure_comps  # comprehensions whose element and condition cannot raise: List.map / List.filter
 
     # ---- types
     def ty(self, n):
+        if ast.dump(n) in self.subst:
+            return self.env[self.subst[ast.dump(n)]]
         if isinstance(n, ast.Constant) and isinstance(n.value, int) and not isinstance(n.value, bool):
             return "int"
+        if isinstance(n, ast.BinOp) and isinstance(n.op, ast.Pow):
+            if self.ty(n.left) == "int" and self.ty(n.right) == "int":
+                return "int"
+            raise Unsupported("power of non-integers")
         if isinstance(n, ast.Name):
             if n.id not in self.env:
                 raise Unsupported("unknown name " + n.id)
@@ -64,6 +72,8 @@ class Tr:
                 return "int"
             raise Unsupported("arithmetic on non-integers")
         if isinstance(n, ast.Compare):
+            return "bool"
+        if isinstance(n, ast.UnaryOp) and isinstance(n.op, ast.Not):
             return "bool"
         if isinstance(n, ast.Subscript) and not isinstance(n.slice, ast.Slice):
             t = self.ty(n.value)
@@ -154,8 +164,31 @@ class Tr:
             return False
 
     def P(self, n):
+        if ast.dump(n) in self.subst:
+            return "v_" + self.subst[ast.dump(n)]
         if isinstance(n, ast.Constant) and isinstance(n.value, int) and not isinstance(n.value, bool):
             return "(%d : Int)" % n.value
+        if isinstance(n, ast.BinOp) and isinstance(n.op, ast.Pow):
+            self.ty(n)
+            return "(%s ^ (%s).toNat)" % (self.P(n.left), self.P(n.right))       # a non-negative exponent (the caller's guard)
+        if isinstance(n, ast.Compare) and len(n.ops) == 2 and all(self.ty(x) == "int" for x in [n.left] + n.comparators):
+            syms = [{ast.Lt: "<", ast.LtE: "≤", ast.Gt: ">", ast.GtE: "≥", ast.Eq: "=", ast.NotEq: "≠"}.get(type(o)) for o in n.ops]
+            if all(syms):
+                a, b, c = self.P(n.left), self.P(n.comparators[0]), self.P(n.comparators[1])
+                return "(decide (%s %s %s) && decide (%s %s %s))" % (a, syms[0], b, b, syms[1], c)
+        if isinstance(n, ast.UnaryOp) and isinstance(n.op, ast.Not) and self.ty(n.operand) == "bool":
+            return "(!%s)" % self.P(n.operand)
+        if isinstance(n, ast.ListComp) and self.pure_comps:
+            g = n.generators[0]
+            self.ty(n)
+            it = self.P(g.iter)
+            with self.bound(n):
+                p = self.pat(n)
+                elt = self.P(n.elt)
+                cond = self.P(g.ifs[0]) if g.ifs else None
+            if cond:
+                return "(List.map (fun %s => %s) (List.filter (fun %s => %s) %s))" % (p, elt, p, cond, it)
+            return "(List.map (fun %s => %s) %s)" % (p, elt, it)
         if isinstance(n, ast.Name):
             self.ty(n)
             return "v_" + n.id
@@ -359,6 +392,110 @@ def gen_entropy(repo, out):
     return status
 
 
+RT_HEADER = '''import Cpl.Py
+import Cpl.Gen.Blocks
+/-! GENERATED by tools/py2lean_comp.py from /repo/cellpylib/rule_tables.py (the countable expressions of
+`random_rule_table` and `table_walk_through`: n, the other states, the validity test of the quiescent state, numerator and
+denominator of the reported lambda) on every run. Do not edit. -/
+
+namespace Cpl.Gen.RuleTables
+open Cpl
+'''
+
+
+def find_deep(fn, name):
+    """All assignments `name = ...` anywhere inside fn (nested loops and branches included)."""
+    return [s for s in ast.walk(fn) if isinstance(s, ast.Assign) and len(s.targets) == 1 and isinstance(s.targets[0], ast.Name) and s.targets[0].id == name]
+
+
+def quotient(e):
+    if not (isinstance(e, ast.BinOp) and isinstance(e.op, ast.Div)):
+        raise Unsupported("not a quotient")
+    return e.left, e.right
+
+
+def gen_rule_tables(repo, out):
+    parts = [RT_HEADER]
+    status = {}
+    attempt = make_attempt(parts, status)
+    try:
+        tree = ast.parse(open(os.path.join(repo, "cellpylib", "rule_tables.py")).read())
+        rrt = find(tree.body, ast.FunctionDef, "random_rule_table")
+        walk = find(tree.body, ast.FunctionDef, "table_walk_through")
+    except Exception as e:  # noqa
+        rrt = walk = None
+        parts.append("-- rule_tables: not found (%s)" % e)
+    if rrt is not None:
+        def others(fn, lean, what):
+            def go():
+                found = find_deep(fn, "other_states")
+                if not found or any(ast.dump(x.value) != ast.dump(found[0].value) for x in found):
+                    raise Unsupported("other_states is not defined by one expression")
+                tr = Tr({"k": "int", "quiescent_state": "int"}, {}, pure_comps=True)
+                if tr.ty(found[0].value) != "ints":
+                    raise Unsupported("other_states is not a list of integers")
+                return ("/-- `other_states = ...` of `%s` (rule_tables.py), translated. -/\ndef %s (v_k v_quiescent_state : Int) : List Int :=\n  %s"
+                        % (what, lean, tr.P(found[0].value)))
+            return go
+        attempt("rrtOtherStates", others(rrt, "rrtOtherStates", "random_rule_table"))
+        attempt("walkOtherStates", others(walk, "walkOtherStates", "table_walk_through"))
+
+        def valid():
+            tests = [s for s in rrt.body if isinstance(s, ast.If) and len(s.body) == 1 and isinstance(s.body[0], ast.Raise)
+                     and any(isinstance(x, ast.Name) and x.id == "quiescent_state" for x in ast.walk(s.test))]
+            if len(tests) != 1:
+                raise Unsupported("expected exactly one raising test of quiescent_state")
+            tr = Tr({"k": "int", "quiescent_state": "int"}, {})
+            return ("/-- The test under which `random_rule_table` raises `ValueError` for the quiescent state (rule_tables.py), translated. -/\n"
+                    "def rrtRejects (v_k v_quiescent_state : Int) : Bool :=\n  %s" % tr.P(tests[0].test))
+        attempt("rrtRejects", valid)
+
+        def n_of(fn):
+            ns = [s for s in fn.body if isinstance(s, ast.Assign) and len(s.targets) == 1 and isinstance(s.targets[0], ast.Name) and s.targets[0].id == "n"]
+            if len(ns) != 1:
+                raise Unsupported("n is not assigned exactly once")
+            return ns[0].value
+
+        def rrt_lambda():
+            nv = n_of(rrt)
+            al = find(rrt.body, ast.Assign, "actual_lambda_val")
+            num, den = quotient(al.value)
+            tr0 = Tr({"r": "int"}, {})
+            tr = Tr({"k": "int", "n": "int", "quiescent_state_count": "int"}, {})
+            return ("/-- `n = ...` and numerator / denominator of `actual_lambda_val` of `random_rule_table` (rule_tables.py), translated. -/\n"
+                    "def rrtLambda (v_k v_r v_quiescent_state_count : Int) : Int × Int :=\n  let v_n : Int := %s\n  (%s, %s)"
+                    % (tr0.P(nv), tr.P(num), tr.P(den)))
+        attempt("rrtLambda", rrt_lambda)
+
+        def walk_lambda():
+            al = find(walk.body, ast.FunctionDef, "actual_lambda")
+            if al.args.args:
+                raise Unsupported("actual_lambda takes parameters")
+            nv = n_of(al)
+            cnt = find(al.body, ast.Assign, "transitions_to_quiescent_state")
+            ret = [s for s in al.body if isinstance(s, ast.Return)]
+            if len(ret) != 1:
+                raise Unsupported("actual_lambda has not exactly one return")
+            num, den = quotient(ret[0].value)
+            vals = ast.dump(ast.parse("list(rule_table.values())", mode="eval").body)
+            trc = Tr({"values": "ints", "quiescent_state": "int"}, {}, subst={vals: "values"})
+            # list(rule_table.values()).count(q): the count method on the substituted parameter
+            c = cnt.value
+            if not (isinstance(c, ast.Call) and isinstance(c.func, ast.Attribute) and c.func.attr == "count" and len(c.args) == 1
+                    and ast.dump(c.func.value) == vals and trc.ty(c.args[0]) == "int"):
+                raise Unsupported("transitions_to_quiescent_state is not list(rule_table.values()).count(...)")
+            tr0 = Tr({"r": "int"}, {})
+            tr = Tr({"k": "int", "n": "int", "transitions_to_quiescent_state": "int"}, {})
+            return ("/-- `actual_lambda()` of `table_walk_through` (rule_tables.py): `n`, the count of quiescent transitions over the table's values, "
+                    "numerator / denominator of the returned quotient, translated. -/\n"
+                    "def walkLambda (v_values : List Int) (v_k v_r v_quiescent_state : Int) : Int × Int :=\n  let v_n : Int := %s\n"
+                    "  let v_transitions_to_quiescent_state : Int := ((List.count %s v_values : Nat) : Int)\n  (%s, %s)"
+                    % (tr0.P(nv), trc.P(c.args[0]), tr.P(num), tr.P(den)))
+        attempt("walkLambda", walk_lambda)
+    emit(out, "RuleTables.lean", parts, status, "Cpl.Gen.RuleTables")
+    return status
+
+
 def main():
     ap = argparse.ArgumentParser()
     ap.add_argument("--repo", default="/repo")
@@ -366,6 +503,7 @@ def main():
     a = ap.parse_args()
     st = gen_apen(a.repo, a.out)
     st.update(gen_entropy(a.repo, a.out))
+    st.update(gen_rule_tables(a.repo, a.out))
     print("py2lean_comp: " + "; ".join("%s %s" % kv for kv in st.items()))
     sys.exit(0)
 
